@@ -553,7 +553,8 @@ theorem offsets_enumerate_whole (sch : Schema) (cfg : Cfg) (toks : List Tok) (ta
   · intro c k b t hb ht
     exact offset_spec sch cfg toks tail ns ns' bs c k b t hread hb ht
 
-/-! ### non-vacuity: the hypotheses are satisfiable on concrete documents -/
+/-! ### non-vacuity: the hypotheses are satisfiable on concrete documents (all arguments explicit: nothing is left
+to unification, each declaration elaborates in well under a second) -/
 namespace Aux
 
 def tk (s : String) (e : Bool := false) : Tok := { text := s, quoted := false, coms := [], eof := e }
@@ -561,27 +562,35 @@ def tk (s : String) (e : Bool := false) : Tok := { text := s, quoted := false, c
 /-- the Newick document `a;` -/
 def docA : List Tok := [tk "a", tk ";" true]
 def treeA : Tree := { name := none, rooted := none, weight := none, coms := [], root := .mk (some 0) none none [] [] }
+def nsA : NSObj := { labels := ["a"], title := none }
 
 set_option maxRecDepth 4000 in
-theorem docA_reads : readBlocks .newick {} docA [] {} = .ok ([[treeA]], { labels := ["a"], title := none }) := by
+theorem docA_reads : readBlocks .newick {} docA [] {} = .ok ([[treeA]], nsA) := by
   simp [readBlocks, readWith, newickRead, docA, tk, freshSink, Mapper.new, enumFrom, newickIter.eq_def, newickStmt,
-    skipLeadingSemis.eq_def, TS.req, TS.step, TS.clear, processTreeComments, rootingState, parseNode.eq_def, tailLoop.eq_def,
-    suppressTaxon, Mapper.require, lookupCI, TS.next, skipTrailingSemis.eq_def, Except.map, treeA]
+    skipLeadingSemis.eq_def, TS.req, TS.step, TS.clear, TS.isP, processTreeComments, rootingState, parseNode.eq_def,
+    tailLoop.eq_def, suppressTaxon, Mapper.require, lookupCI, TS.next, skipTrailingSemis.eq_def, Except.map, treeA, nsA]
 
-/-- the NEXUS document `#NEXUS BEGIN TREES; TREE t = a; END;` -/
-def docN : List Tok :=
-  [tk "#NEXUS", tk "BEGIN", tk "TREES", tk ";", tk "TREE", tk "t", tk "=", tk "a", tk ";", tk "END", tk ";" true]
+/-- the NEXUS document `#NEXUS` (no blocks) -/
+def docN : List Tok := [tk "#NEXUS" true]
 
-set_option maxRecDepth 8000 in
-set_option maxHeartbeats 1000000 in
 theorem docN_noSets :
     noSetsBlocks {} pseudoSink { (coreOf docN [] {}) with ts := (coreOf docN [] {}).ts.next } [] = true := by
-  simp [noSetsBlocks.eq_def, coreOf, docN, tk, TS.next, TS.nextU, TS.step, TS.clear, TS.castU, dispatchTok, seekBegin.eq_def,
-    isSetsKw, streamStepR, treesBlockR, skipSemi.eq_def, treesLoopR.eq_def, treesStepR, getNamespace, newNamespace,
-    treeRunR.eq_def, nexusTreeStmt, pseudoSink, Mapper.new, enumFrom, newickStmt, skipLeadingSemis.eq_def, TS.req,
-    processTreeComments, rootingState, parseNode.eq_def, tailLoop.eq_def, suppressTaxon, Mapper.require, lookupCI,
-    skipTrailingSemis.eq_def, Except.map]
+  rw [noSetsBlocks.eq_def]
+  simp [coreOf, docN, tk, TS.next, TS.step]
 
 end Aux
+
+example : treeGet .newick {} docA [] {} (some ((0 : Nat) : Int)) (some ((0 : Nat) : Int)) none = .ok (treeA, nsA) :=
+  offset_spec .newick {} docA [] {} nsA [[treeA]] 0 0 [treeA] treeA docA_reads rfl rfl
+
+example : treeGet .newick {} docA [] {} (some (-((0 : Nat) : Int) - 1)) (some (-((0 : Nat) : Int) - 1)) none = .ok (treeA, nsA) :=
+  offset_neg_spec .newick {} docA [] {} nsA [[treeA]] 0 0 [treeA] treeA docA_reads (by decide) rfl (by decide) rfl
+
+example : listGet .newick {} docA [] {} [treeA, treeA] (some ((0 : Nat) : Int)) (some ((0 : Nat) : Int))
+    = .ok ([treeA, treeA] ++ [treeA].drop 0, nsA) :=
+  offset_list_spec .newick {} docA [] {} nsA [treeA, treeA] [[treeA]] 0 0 [treeA] docA_reads rfl (by decide)
+
+example : nexusYield {} (coreOf docN [] {}) [] = nexusRead {} pseudoSink (coreOf docN [] {}) [] :=
+  reader_eq_yielder_partial {} rfl (coreOf docN [] {}) [] docN_noSets
 
 end DendroModel.C13
